@@ -130,6 +130,10 @@ pub fn family(name: &str) -> GenCfg {
         // many candidates, most of them excluded or with unknown dependencies: far more than 64
         // negative assertions in one solve, requirements whose candidate lists are mostly ruled out
         // at level 1 before they are encoded
+        // union-heavy and constrains-heavy: most requirements are unions over different packages,
+        // decided members get abandoned and other members become true later
+        "union-conf" => GenCfg { npkg: 9, maxver: 3, maxreq: 4, p_union: 65, p_con: 75, p_missing: 0, p_unknown: 1, p_excl: 2, p_lock: 1, ..GenCfg::conf() },
+        "union-conf-hints" => GenCfg { hints: 1, ..family("union-conf") },
         // hundreds of packages (layered, so that searches stay tractable)
         "huge" => GenCfg { npkg: 160, maxver: 3, maxreq: 3, p_con: 50, p_missing: 2, p_union: 10, maxroot: 6, layered: true, ..GenCfg::conf() },
         "huge-hints" => GenCfg { hints: 1, ..family("huge") },
